@@ -52,6 +52,56 @@ def rand_cmds(r, meth):
     return ",".join(cmds) or "-"
 
 
+def seam_cmds(r, meth):
+    """command lists that put a run of 8 literals (for -lz5-: one whole flag group, flag byte 0xff) at a chosen ring position next to
+    the seam (size-8: the run ends exactly at the end of the ring), then read the cells around the seam back with copies"""
+    size, lo, hi = (2048, 2, 17) if meth == "lzs" else (4096, 3, 18)
+    start = size - (17 if meth == "lzs" else 18)
+    T = r.choice([size - 8, size - 8, size - 8, size - 9, size - 7, size - 16, size - 1, 0, size - 4])
+    D = (T - start) % size
+    if D < 8:
+        D += size
+    cmds = []
+    wp = start
+    # whole groups of 8 maximal copies while far away
+    while D >= 8 * hi + 8:
+        for _ in range(8):
+            cmds.append("C%d.%d" % ((wp - 1) % size, hi)); wp = (wp + hi) % size
+        D -= 8 * hi
+    # one last group of 8 commands producing exactly D bytes (8 <= D < 8*hi+8): literals upgraded to copies
+    for _ in range(200):
+        lens = [1] * 8
+        rest = D - 8
+        order = list(range(8)); r.shuffle(order)
+        for i in order:
+            if rest == 0:
+                break
+            add = min(rest, hi - 1)
+            if add < lo - 1:
+                break
+            if rest - add in range(1, lo - 1):
+                add -= (lo - 1)
+                if add < lo - 1:
+                    break
+            lens[i] = 1 + add
+            rest -= add
+        if rest == 0:
+            break
+    else:
+        return None
+    for ln in lens:
+        if ln == 1:
+            cmds.append("L%02x" % r.randrange(256)); wp = (wp + 1) % size
+        else:
+            cmds.append("C%d.%d" % ((wp - r.randrange(1, 4)) % size, ln)); wp = (wp + ln) % size
+    # the run of 8 literals at T (two of them for good measure), then the read-back
+    for _ in range(r.choice([8, 16])):
+        cmds.append("L%02x" % r.randrange(1, 256)); wp = (wp + 1) % size
+    for pos, ln in [(size - 2, min(hi, 5)), (0, lo + 1), (T % size, min(hi, 10)), (size - 1, lo), (1, lo)]:
+        cmds.append("C%d.%d" % (pos, ln)); wp = (wp + ln) % size
+    return ",".join(cmds)
+
+
 def mk_spec_judge(declen):
     def sj(c_out, s_out):
         if c_out.startswith(("CRASH", "TIMEOUT")):
@@ -74,7 +124,8 @@ def gen_cases(ctx, n):
     specs = []
     for i in range(n):
         meth = r.choice(["lzs", "lz5"])
-        specs.append((meth, rand_cmds(r, meth)))
+        c = seam_cmds(r, meth) if i % 6 == 0 else None
+        specs.append((meth, c or rand_cmds(r, meth)))
     ser, _ = core.run_lines_parallel([core.lhv_path()], ["lzser %s %s" % s for s in specs])
     exl, _ = core.run_lines_parallel([core.lhv_path()], ["lzexp %s %s" % s for s in specs])
     for (meth, cmds), hx, ex in zip(specs, ser, exl):
